@@ -600,7 +600,8 @@ class Run:
         if self.ctx.quick:
             cs, ns = [1, 2, 5][s % 3], [4, 3][s % 2]
             return [("hotp_core", "hotp", [rot(0) * 10 + 1 + s % 7], HOTP_CORE, 6, 5),
-                    ("hotp_full", "hotp", [rot(c) * 10 + c for c in range(1, 8)], HOTP_FULL, 3, 4),
+                    # classes 2 (32-bit word wrap) and 3 (2^64 wrap) always, two of the others by the seed; S6 brings in FF..FF
+                    ("hotp_full", "hotp", [rot(c) * 10 + c for c in sorted({2, 3, [1, 4, 5, 7][s % 4], [4, 5, 7, 1][(s // 4) % 4]})], HOTP_FULL, 3, 4),
                     ("totp", "totp", [rot(c) * 10 + c for c in range(1, 6)], TOTP_FULL, 3, 3),
                     ("ocra", "ocra", [cs * 10 + 1 + (s // 3) % 7, ns * 10 + 1], OCRA_CORE, 4, 4)]
         return [("hotp_core", "hotp", [rot(0) * 10 + 2, rot(1) * 10 + 3], HOTP_CORE, 7, 8),
@@ -738,12 +739,13 @@ class Run:
         # all TLC runs at once: the enumerations and the validation of the random histories
         jobs = [(lambda p=p: self.botp_mc(*p)) for p in plan]
         jobs.append(lambda: self.botp_trace(rand_rows, "rand", 6 if ctx.quick else 14) if rand_rows else (0, 0))
+        jobs.append(lambda: self.botp_selftest_trace(rand_rows))
         results = vlib.parallel(jobs, n=len(jobs))
-        nh, nl = results[-1]
+        nh, nl = results[-2]
         runs = self.ev.cov.setdefault("botp_sm_runs", {})
         tot_h = tot_s = tot_bad = 0
         sample_rows, first_cases, first_logs = [], None, None
-        for (name, fam, cases_code, alpha, depth, _), r in zip(plan, results[:-1]):
+        for (name, fam, cases_code, alpha, depth, _), r in zip(plan, results[:-2]):
             if vlib.tlc_infra_failed(r):
                 ctx.note_inconclusive("MC_BotpSM run %s gave no verdict (rc=%s): %s" % (name, r.rc, (r.error or "")[-300:]))
                 continue
@@ -785,12 +787,11 @@ class Run:
         self.ev.cov["botp_histories_disagreeing"] = tot_bad
         self.ev.cov["botp_recorded_histories_accepted"] = nh + sh
         self.ev.cov["botp_recorded_calls_accepted"] = nl + sl
-        self.botp_selftest(first_cases, first_logs, rand_rows)
+        self.botp_selftest_replay(first_cases, first_logs)
         vlib.log("[C03] botp state objects: %d histories / %d calls replayed, %d recorded calls accepted, %.1fs" % (tot_h, tot_s, nl + sl, time.time() - t0))
 
-    def botp_selftest(self, cases, logs, rand_rows):
-        """Binding: (replay) one corrupted logged output per kind must be reported by the comparison, the untouched log must not;
-        (record) a corrupted / dropped logged line must be rejected by Trace_Botp at that line."""
+    def botp_selftest_replay(self, cases, logs):
+        """Binding (replay): one corrupted logged output per kind must be reported by the comparison, the untouched log must not."""
         ctx = self.ctx
         if cases and logs:
             verdicts = []
@@ -817,6 +818,10 @@ class Run:
             self.ev.cov["selftest_botp_replay_detected"] = sum(verdicts)
             if not verdicts or not all(verdicts):
                 ctx.note_inconclusive("binding self-test (botp replay): %s" % verdicts)
+
+    def botp_selftest_trace(self, rand_rows):
+        """Binding (record): a corrupted / dropped logged line must be rejected by Trace_Botp at that line."""
+        ctx = self.ctx
         if rand_rows:
             tests = []
             def cut(rows, i):          # the history containing line i, up to one line after it
